@@ -459,6 +459,11 @@ class _Interp:
                     a = RVal(b.ty, a.v)
                 elif b.ty.kind == "int" and a.ty.kind in ("U", "S") and a.ty.lo() <= b.v <= a.ty.hi():
                     b = RVal(a.ty, b.v)
+                elif a.ty.kind == "fill" and b.ty.kind in ("U", "S", "BV"):
+                    # Null / Full merged with a vector: all bits 0 / all bits 1 of that vector type
+                    a = RVal(b.ty, 0 if a.v == 0 else (-1 if b.ty.kind == "S" else (1 << b.ty.w) - 1))
+                elif b.ty.kind == "fill" and a.ty.kind in ("U", "S", "BV"):
+                    b = RVal(a.ty, 0 if b.v == 0 else (-1 if a.ty.kind == "S" else (1 << a.ty.w) - 1))
                 else:
                     raise RUnsupported("ifexp merge of different types")
             return RVal(a.ty, P.ite(c, a.v, b.v))
